@@ -40,6 +40,10 @@ pub struct Scn {
     #[serde(default)]
     pub clone_warmup_ms: u64,
     pub knobs: SchedKnobs,
+    /// builder call order: bit 0 = max_hedged_attempts after the delay setting, bit 1 = another
+    /// kind of delay setting is made first (the last call wins)
+    #[serde(default)]
+    pub order: u8,
 }
 
 /// Many attempts whose outcomes arrive together (more than any small internal queue holds).
@@ -66,6 +70,7 @@ fn gen_many(rng: &mut Rng) -> Scn {
         calls: vec![Call { start_ms: 0, attempts }],
         clone_warmup_ms: 0,
         knobs: SchedKnobs::gen(rng, false, 60),
+        order: rng.below(4) as u8,
     }
 }
 
@@ -113,6 +118,7 @@ pub fn gen(rng: &mut Rng) -> Scn {
         calls,
         clone_warmup_ms: if rng.chance(1, 4) { *rng.pick(&[5u64, 30, 200]) } else { 0 },
         knobs: SchedKnobs::gen(rng, true, 60),
+        order: if rng.chance(1, 2) { rng.below(4) as u8 } else { 0 },
     }
 }
 
@@ -133,6 +139,7 @@ pub fn valid(s: &Scn) -> bool {
             Delay::Table(t) => t.len() >= 4 && t.len() <= 6 && t.iter().all(|d| *d <= 100),
         }
         && s.clone_warmup_ms <= 500
+        && s.order <= 3
         && s.knobs.jumps.len() <= 3
         && s.knobs.jumps.iter().all(|j| j.0 <= 300 && j.1 <= 200)
 }
@@ -165,7 +172,18 @@ pub fn run(s: &Scn, ctx: &mut RunCtx) -> RunOutput {
                 w.script.clone_warmup_ms.insert(0, scn.clone_warmup_ms);
             }
         });
-        let mut b = HedgeLayer::builder().max_hedged_attempts(scn.max as usize);
+        let mut b = HedgeLayer::builder();
+        if scn.order & 2 != 0 {
+            // decoy, overwritten below
+            b = match &scn.delay {
+                Delay::Immediate | Delay::Fixed(0) => b.delay(Duration::from_millis(3)).max_hedged_attempts(scn.max as usize + 1),
+                Delay::Table(_) => b.no_delay(),
+                _ => b.delay_fn(|_| Duration::ZERO).max_hedged_attempts(1),
+            };
+        }
+        if scn.order & 1 == 0 {
+            b = b.max_hedged_attempts(scn.max as usize);
+        }
         b = match &scn.delay {
             Delay::Fixed(d) => b.delay(if *d == u64::MAX { Duration::MAX } else { Duration::from_millis(*d) }),
             Delay::FixedUs(d) => b.delay(Duration::from_micros(*d)),
@@ -175,6 +193,9 @@ pub fn run(s: &Scn, ctx: &mut RunCtx) -> RunOutput {
                 b.delay_fn(move |a| Duration::from_millis(t[(a.max(1) - 1).min(t.len() - 1)]))
             }
         };
+        if scn.order & 1 != 0 {
+            b = b.max_hedged_attempts(scn.max as usize);
+        }
         let layer = b.build();
         let base = layer.layer(SimInner::new(0));
         let mut defs = vec![];
